@@ -8,7 +8,7 @@ import subprocess
 import time
 
 VERIF = os.path.dirname(os.path.dirname(os.path.dirname(os.path.abspath(__file__))))
-COQ = os.path.join(VERIF, "coq")
+COQ = os.environ.get("VERIF_COQ_DIR") or os.path.join(VERIF, "coq")
 FORBIDDEN = re.compile(r"\b(Admitted|admit|Axiom|Axioms|Parameter|Parameters|Conjecture|Admit Obligations|bypass_check|Unset Guard Checking|Unset Positivity Checking|Unset Universe Checking|type-in-type|impredicative-set)\b")
 
 
